@@ -123,6 +123,26 @@ pub fn subs() -> Vec<Box<dyn DynSub>> {
   all_subs("C01", &Proto::LOCAL).into_iter().map(|s| Box::new(s) as Box<dyn DynSub>).collect()
 }
 
+/// one- and two-byte messages x `per_message` (key, nonce) pairs
+pub fn tiny_messages(proto: Proto, layer: Layer, per_message: u32) -> Vec<RtCase> {
+  let mut out = vec![];
+  let mut x: u64 = 0x9e37_79b9_7f4a_7c15 ^ (proto.version() as u64);
+  let mut next = || {
+    x ^= x << 13;
+    x ^= x >> 7;
+    x ^= x << 17;
+    x
+  };
+  for msg in ["a", "{", "0", "\u{0}", "\u{7f}", "\u{e9}", "ab", "{}"] {
+    for i in 0..per_message {
+      let nonce: Vec<u8> = (0..if proto == Proto::V2L { 24 } else { 32 }).map(|_| next() as u8).collect();
+      let key_seed: Vec<u8> = if i % 64 == 0 { (0..32).map(|_| next() as u8).collect() } else { out.last().map(|c: &RtCase| c.key_seed.clone()).unwrap_or_else(|| vec![7u8; 32]) };
+      out.push(RtCase { proto, layer, key_seed, nonce, msg: crate::gen::Text::Lit(msg.to_string()), footer: None, assertion: None, before: 0 });
+    }
+  }
+  out
+}
+
 pub fn run_rt<'a>(ctx: &'a Ctx, subs: &'a [RoundTrip], per_unit_quick: u32, per_unit_thorough: u32, sweep_max_quick: u32, sweep_max_thorough: u32) {
   let mut jobs: Vec<Job> = vec![];
   for s in subs {
@@ -133,6 +153,12 @@ pub fn run_rt<'a>(ctx: &'a Ctx, subs: &'a [RoundTrip], per_unit_quick: u32, per_
       // every message length up to a few blocks of every primitive involved
       let max = match s.proto.cost() { 40 => ctx.n(200, 1100), 8 => ctx.n(300, 1100), _ => ctx.n(1100, 4200) };
       jobs.push(Box::new(move || ctx.enumerate(s, dense_sweep(s.proto, s.layer, max).into_iter(), true)));
+      if s.layer == Layer::Core && s.proto.is_local() {
+        // messages of one or two bytes under very many (key, nonce) pairs: the keystream over so short a message takes every
+        // value, also all-zero (ciphertext == plaintext), all-one, the message itself
+        let per_message = ctx.n(1500, 40_000);
+        jobs.push(Box::new(move || ctx.enumerate(s, tiny_messages(s.proto, s.layer, per_message).into_iter(), false)));
+      }
     } else {
       let n = (ctx.n(per_unit_quick, per_unit_thorough) / s.proto.cost()).max(20);
       jobs.push(Box::new(move || ctx.prop(s, rt_case(s.proto, s.layer), n)));
@@ -146,6 +172,7 @@ pub fn run(ctx: &Ctx) -> EvidenceMeta {
   run_rt(ctx, &subs, 4000, 40_000, 100_000, 1_000_000);
   EvidenceMeta {
     rule: "per (version, layer): a deterministic sweep over message byte lengths {0,1,15,16,17,31,32,33,47,48,49,63,64,65,127,128,129,255,256,257,4095,4096,4097,65535,65536,65537,100000} x {no footer, footer} (assertion alternating for v3/v4), \
+           every message length 0..=1100 (dense), one- and two-byte messages under 1 500 (thorough 40 000) (key, nonce) pairs each at the core layer, \
            then generated cases (key incl. all-zero/all-one, nonce, message from JSON-ish ASCII / arbitrary Unicode / specials / boundary lengths, footer and assertion in {none, explicit empty, text}). \
            Oracle: parse(build(x)) == x exactly (core: the string; builder layers: the 'data' claim carrying the generated text). \
            Non-trivial = message non-empty or footer/assertion present; distinct by the whole case."
